@@ -576,6 +576,8 @@ def pyval_add(run, a, b, node):
 
 def to_pyval(run, v):
     P = TAny.sort()
+    if v.ty is TAny:
+        return v
     if v.ty is TNone:
         return Val(TAny, P.NoneV)
     if v.ty is TBool:
@@ -594,6 +596,10 @@ def to_pyval(run, v):
 
 def from_pyval(run, v, ty):
     P = TAny.sort()
+    if ty is TAny:
+        return v
+    if isinstance(ty, TOpt) and ty.inner is TAny:
+        return Val(ty, z3.If(P.is_NoneV(v.t), ty.none(), ty.some(v.t)))
     if ty is TStr:
         run.oblige("type#str", z3.Or(P.is_StrV(v.t), P.is_SafeV(v.t)), kind="safe")
         return Val(TStr, z3.If(P.is_StrV(v.t), P.s(v.t), P.ss(v.t)))
